@@ -63,6 +63,8 @@ pub struct StreamDecryptor<R: BufRead> {
     source: R,
     /// finished reading from source?
     is_source_done: bool,
+    /// a previous call failed, the buffer state can not be used anymore
+    is_failed: bool,
     /// main buffer
     #[debug("{}", hex::encode(buffer))]
     buffer: BytesMut,
@@ -110,6 +112,7 @@ impl<R: BufRead> StreamDecryptor<R> {
             chunk_size_expanded,
             source,
             is_source_done: false,
+            is_failed: false,
             buffer: BytesMut::with_capacity(2 * (chunk_size_expanded + AEAD_TAG_SIZE)),
             in_buffer_end: 0,
             out_buffer_start: 0,
@@ -155,6 +158,7 @@ impl<R: BufRead> StreamDecryptor<R> {
             chunk_size_expanded,
             source,
             is_source_done: false,
+            is_failed: false,
             buffer: BytesMut::with_capacity(2 * (chunk_size_expanded + AEAD_TAG_SIZE)),
             in_buffer_end: 0,
             out_buffer_start: 0,
@@ -261,6 +265,17 @@ impl<R: BufRead> StreamDecryptor<R> {
     }
 
     fn fill_inner(&mut self) -> io::Result<()> {
+        if self.is_failed {
+            return Err(io::Error::other("aead decryption failed before"));
+        }
+        let res = self.fill_inner_unchecked();
+        if res.is_err() {
+            self.is_failed = true;
+        }
+        res
+    }
+
+    fn fill_inner_unchecked(&mut self) -> io::Result<()> {
         if self.out_buffer_remaining() > 0 || self.is_source_done {
             return Ok(());
         }
